@@ -529,7 +529,7 @@ class G:
             if opt < 0.25:
                 t += [",", self.kw("stat"), "=", "ierr"]
             elif opt < 0.35 and t[2].upper() != "REAL":
-                t += [",", self.kw("source"), "="] + self.var()
+                t += [",", self.kw("source"), "="] + self.ch([self.var(), ["0.0"], ["(", "x", "+", "1.0", ")", "*", "2"], ["f_1", "(", "n", ")"]])
             elif opt < 0.42 and self.f08ok() and t[2].upper() != "REAL":
                 t += [",", self.kw("mold"), "="] + self.var()
                 f08 = True
@@ -1398,9 +1398,15 @@ class G:
         if not interface_body:
             body += self.body(depth, n=max(1, int(self.ri(1, 4) * self.size)))
             if not is_fn and self.p(0.08):
-                body.append(St([self.kw("entry"), nm + "_e", "(", "b", ")"]))
+                body.append(St([self.kw("entry"), nm + "_e"] + self.ch([["(", "b", ")"], ["(", ")"], []])))
                 body.append(St(["b", "=", "1"]))
                 self.hit("u:entry")
+            if is_fn and self.p(0.1) and not interface_body:
+                # ENTRY in a function: empty or non-empty dummy list, with and without a suffix
+                suf = self.ch([[], [self.kw("result"), "(", "res_e", ")"], [self.kw("result"), "(", "res_e", ")"]])
+                body.append(St([self.kw("entry"), nm + "_e", "("] + self.ch([[], ["b"]]) + [")"] + suf))
+                body.append(St(["b", "=", "1"]))
+                self.hit("u:entry-function")
             if depth < 1 and self.p(0.25) and not interface_body:
                 body.append(St([self.kw("contains")], "mid", what))
                 for _ in range(self.ri(1, 2)):
